@@ -73,3 +73,43 @@ def hint_matches(r, hint):
 NATIVE.update({"valid_hint": valid_hint, "valid_any_hint": valid_any_hint, "all_valid": all_valid,
                "all_valid_any": all_valid_any, "all_relays_valid": all_relays_valid,
                "wellformed_tcp": wellformed_tcp, "hint_matches": hint_matches})
+
+
+# ---- C05 (POSIX path theory: the uninterpreted symbols of props/c05.py are CPython's posixpath here)
+import posixpath  # noqa: E402
+
+
+def good_name(b):
+    return isinstance(b, str) and b != "" and "/" not in b and b not in (".", "..")
+
+
+def within(p, d):
+    return p == d or p == d + ".tmp" or below(p, d)
+
+
+def below(p, d):
+    return p.startswith(d + "/") and len(p) > len(d) + 1
+
+
+def jfield(d, *keys):
+    for k in keys:
+        d = d[k]
+    return d
+
+
+NATIVE.update({"pjoin": posixpath.join, "abspath": posixpath.abspath, "basename": posixpath.basename,
+               "good_name": good_name, "within": within, "below": below, "jfield": jfield,
+               "is_jstr": lambda x: isinstance(x, str), "jstr": lambda x: x,
+               "imp": lambda a, b: (not a) or bool(b), "falsy": lambda a: not a, "truthy": lambda a: bool(a)})
+
+
+# ---- C04
+import binascii  # noqa: E402
+import hashlib  # noqa: E402
+import json  # noqa: E402
+
+NATIVE.update({"sha256_digest": lambda b: hashlib.sha256(b).digest(),
+               "hexstr": lambda b: binascii.hexlify(b).decode("ascii"),
+               "json_bytes": lambda d: json.dumps(d).encode("utf-8"),
+               "jhas": lambda d, k: isinstance(d, dict) and k in d, "jget": lambda d, k: d[k],
+               "reached": lambda n, e: e is not None and n >= e})
